@@ -109,20 +109,27 @@ impl Sampler for Multinomial {
 
 /// Sample an item from a vector of probabilities.
 ///
-/// Returns the index of the selected item, or `None` if the vector is empty
-/// or sums to less than 1.
+/// Only items with a non-zero probability are selected. Returns the index of
+/// the selected item, or `None` if no item has a non-zero probability (eg.
+/// because the vector is empty or contains NaNs).
 fn multinomial(rng: &mut fastrand::Rng, probs: &[f32]) -> Option<usize> {
     let target = rng.f32();
 
     let mut cum_prob = 0.;
+    let mut last_nonzero = None;
     for (idx, &prob) in probs.iter().enumerate() {
-        cum_prob += prob;
-        if target <= cum_prob {
-            return Some(idx);
+        if prob > 0. {
+            cum_prob += prob;
+            if target <= cum_prob {
+                return Some(idx);
+            }
+            last_nonzero = Some(idx);
         }
     }
 
-    None
+    // Due to rounding errors the probabilities may sum to slightly less than
+    // the target. In that case the target falls into the last bucket.
+    last_nonzero
 }
 
 #[cfg(test)]
